@@ -437,6 +437,12 @@ func (h *c02Hist) apply(t *c02Twin, w []string) (res string) {
 		return c02Err(f.DeleteFormControl(h.sheet(n(1)), c02Name(n(2), n(3))))
 	case "comment":
 		return c02Err(f.AddComment(h.sheet(n(1)), xl.Comment{Cell: c02Name(n(2), n(3)), Author: "vh", Text: "note " + w[4]}))
+	case "pic":
+		return c02Err(f.AddPictureFromBytes(h.sheet(n(1)), c02Name(n(2), n(3)), &xl.Picture{Extension: ".png", File: c02PNG,
+			Format: &xl.GraphicOptions{AltText: "p" + strconv.Itoa(n(4))}}))
+	case "table":
+		return c02Err(f.AddTable(h.sheet(n(1)), &xl.Table{Range: c02Name(n(2), n(3)) + ":" + c02Name(n(2)+1, n(3)+2),
+			Name: fmt.Sprintf("T%d_%d_%d", n(1), n(2), n(3))}))
 	case "stream":
 		name := "S" + strconv.Itoa(len(h.names)+1)
 		if _, err := f.NewSheet(name); err != nil {
@@ -521,6 +527,26 @@ func c02Observe(f *xl.File, h *c02Hist) (obs []c02Obs) {
 				s = append(s, fmt.Sprintf("%s/%d/%s", c.Cell, c.Type, hx(c.Text)))
 			}
 			return strings.Join(s, ",")
+		}))
+		add(i, p+"tables", "table", safe(func() string {
+			ts, err := f.GetTables(name)
+			if err != nil {
+				return "ERR"
+			}
+			var s []string
+			for _, t := range ts {
+				s = append(s, t.Name+"="+t.Range)
+			}
+			sort.Strings(s)
+			return strings.Join(s, ",")
+		}))
+		add(i, p+"pictures", "picture", safe(func() string {
+			cells, err := f.GetPictureCells(name)
+			if err != nil {
+				return "ERR"
+			}
+			sort.Strings(cells)
+			return strings.Join(cells, ",")
 		}))
 		add(i, p+"comments", "vml", safe(func() string {
 			cs, err := f.GetComments(name)
@@ -1129,6 +1155,11 @@ func (h *c02Hist) freshTwin() []byte {
 	return b
 }
 
+// a 1x1 PNG
+var c02PNG = []byte{0x89, 0x50, 0x4e, 0x47, 0x0d, 0x0a, 0x1a, 0x0a, 0, 0, 0, 0x0d, 0x49, 0x48, 0x44, 0x52, 0, 0, 0, 1, 0, 0, 0, 1, 8, 6, 0, 0, 0,
+	0x1f, 0x15, 0xc4, 0x89, 0, 0, 0, 0x0d, 0x49, 0x44, 0x41, 0x54, 0x78, 0x9c, 0x63, 0xf8, 0xcf, 0xc0, 0xf0, 0x1f, 0, 5, 0, 1, 0xff, 0x89, 0x99,
+	0x3d, 0x1d, 0, 0, 0, 0, 0x49, 0x45, 0x4e, 0x44, 0xae, 0x42, 0x60, 0x82}
+
 func c02RepoDir() string {
 	if d := os.Getenv("VERIF_REPO"); d != "" {
 		return d
@@ -1249,7 +1280,7 @@ func (h *c02Hist) execOne(w []string, twin bool) string {
 				h.kinds[i] = "opened"
 			}
 		}
-	case "val", "fml", "sty", "get", "iget", "float", "rich", "link", "formctl", "delformctl", "comment":
+	case "val", "fml", "sty", "get", "iget", "float", "rich", "link", "formctl", "delformctl", "comment", "pic", "table":
 		h.touch(n(1), n(2), n(3))
 	case "merge", "unmerge", "dim":
 		h.touch(n(1), n(2), n(3))
@@ -1273,7 +1304,7 @@ func (h *c02Hist) execOne(w []string, twin bool) string {
 var c02Mutating = map[string]bool{"val": true, "fml": true, "sty": true, "hide": true, "newsheet": true, "copy": true,
 	"float": true, "rich": true, "merge": true, "unmerge": true, "colw": true, "colvis": true, "colsty": true, "colout": true,
 	"rowsty": true, "rowh": true, "rowout": true, "insr": true, "delr": true, "insc": true, "delc": true,
-	"dupr": true, "link": true, "formctl": true, "delformctl": true, "comment": true, "defname": true, "active": true, "shvis": true, "dim": true, "stream": true}
+	"dupr": true, "link": true, "formctl": true, "delformctl": true, "comment": true, "pic": true, "table": true, "defname": true, "active": true, "shvis": true, "dim": true, "stream": true}
 
 // observeBefore / observeAfter are the getter calls that accompany `save k o`.
 // One getter side effect is left in the library (the first string read creates
@@ -1627,6 +1658,9 @@ func (g *c02Gen) wideOp() []string {
 	if rg.Chance(8) {
 		return g.colBurst(sh)
 	}
+	if rg.Chance(7) && g.nsheet >= 2 {
+		return g.copyOver()
+	}
 	if rg.Chance(9) { // VML-backed features: form controls and comments
 		switch rg.Intn(5) {
 		case 0, 1:
@@ -1685,6 +1719,52 @@ func (g *c02Gen) wideOp() []string {
 		}
 	}
 	return g.coreOp()
+}
+
+// relOp draws an operation that gives a sheet a relationship (external hyperlink, comment, form
+// control, picture, table).
+func (g *c02Gen) relOp(sh int) string {
+	rg := g.rng
+	c, r := rg.Range(1, 6), rg.Range(1, 6)
+	switch rg.Intn(5) {
+	case 0:
+		return fmt.Sprintf("link %d %d %d l%d", sh, c, r, rg.Intn(9))
+	case 1:
+		return fmt.Sprintf("comment %d %d %d %d", sh, c, r, rg.Intn(8))
+	case 2:
+		return fmt.Sprintf("formctl %d %d %d %d", sh, c, r, rg.Intn(8))
+	case 3:
+		return fmt.Sprintf("pic %d %d %d %d", sh, c, r, rg.Intn(8))
+	default:
+		return fmt.Sprintf("table %d %d %d", sh, c, r+6)
+	}
+}
+
+// copyOver: a sheet that owns relationships is overwritten by CopySheet — from a sheet without
+// or with relationships — with or without a save in between, then gets a new relationship; the
+// final packages of the twins are compared part by part (sheet-level .rels parts included).
+func (g *c02Gen) copyOver() []string {
+	rg := g.rng
+	dst := rg.Intn(g.nsheet)
+	src := (dst + 1 + rg.Intn(g.nsheet-1)) % g.nsheet
+	var ls []string
+	for i := rg.Range(1, 3); i > 0; i-- {
+		ls = append(ls, g.relOp(dst))
+	}
+	if rg.Chance(40) {
+		ls = append(ls, g.relOp(src))
+	}
+	if rg.Chance(65) {
+		ls = append(ls, fmt.Sprintf("save %d %d", rg.Intn(4), []int{0, 0, 2, 4}[rg.Intn(4)]))
+	}
+	ls = append(ls, fmt.Sprintf("copy %d %d", src, dst))
+	if rg.Chance(70) {
+		ls = append(ls, g.relOp(dst))
+	}
+	if rg.Chance(50) {
+		ls = append(ls, fmt.Sprintf("save %d %d", rg.Intn(4), []int{2, 6}[rg.Intn(2)]))
+	}
+	return ls
 }
 
 // colBurst draws several column-definition ops on adjacent columns 1..5 (single columns and
@@ -1925,6 +2005,10 @@ var c02Regressions = [][]string{
 	// adjacent single-column definitions that differ only in style must survive mergeExpandedCols
 	{"new", "colw 0 1 4 20", "colsty 0 3 3 1", "save 0 6", "get 0 4 1", "save 1 7"},
 	{"new", "colsty 0 2 2 1", "colsty 0 3 3 2", "colout 0 4 1", "colvis 0 5 0", "save 2 7", "colw 0 2 3 10", "save 0 7"},
+	// CopySheet over a sheet that owns relationships, after a save wrote its .rels part: the stale part must go
+	{"new", "newsheet", "link 1 3 1 l3", "save 0 0", "copy 0 1", "link 1 2 2 l4"},
+	{"new", "newsheet", "comment 1 1 1 1", "link 1 3 1 l3", "save 0 0", "copy 0 1", "comment 1 2 2 2", "save 0 6"},
+	{"new", "newsheet", "newsheet", "link 1 3 1 l3", "link 2 1 1 l5", "save 0 0", "copy 2 1", "link 1 2 2 l4"},
 	// VML parts: add, save, add, save, read (the writer must not drop what it has loaded)
 	{"new", "formctl 0 1 1 0", "save 0 2", "formctl 0 2 5 1", "save 0 6", "comment 0 3 3 1", "save 0 7"},
 	{"new", "comment 0 1 1 0", "formctl 0 2 2 0", "reopen", "save 0 2", "formctl 0 2 5 1", "comment 0 4 4 2", "save 0 6", "save 0 7"},
